@@ -105,6 +105,8 @@ where
                     .name(format!("checker-{}", t))
                     .spawn(move || {
                         log::debug!("{}: Thread started.", t);
+                        #[cfg(getong_stateright_verif)]
+                        crate::verif::set_worker(t);
                         let mut pending = VecDeque::new();
                         loop {
                             // Step 1: Do work.
@@ -114,6 +116,8 @@ where
                                     crate::verif::yield_point(21);
                                     let jobs = job_broker.pop();
                                     if jobs.is_empty() {
+                                        #[cfg(getong_stateright_verif)]
+                                        crate::verif::trace(crate::verif::TR_STOP, 4, 0);
                                         log::debug!(
                                             "{}: No more work. Shutting down... gen={}",
                                             t,
@@ -142,6 +146,8 @@ where
                             if job_broker.is_shut_down() {
                                 // Timed out, or another worker stopped: observed once per
                                 // block even if this worker never shares or requests work.
+                                #[cfg(getong_stateright_verif)]
+                                crate::verif::trace(crate::verif::TR_STOP, 3, 0);
                                 log::debug!("{}: Market shut down. Shutting down...", t);
                                 return;
                             }
@@ -149,6 +155,8 @@ where
                                 &discoveries.iter().map(|r| *r.key()).collect(),
                                 &properties,
                             ) {
+                                #[cfg(getong_stateright_verif)]
+                                crate::verif::trace(crate::verif::TR_STOP, 1, 0);
                                 log::debug!(
                                     "{}: Discovery complete. Shutting down... gen={}",
                                     t,
@@ -158,6 +166,8 @@ where
                             }
                             if let Some(target_state_count) = target_state_count {
                                 if target_state_count.get() <= state_count.load(Ordering::Relaxed) {
+                                    #[cfg(getong_stateright_verif)]
+                                    crate::verif::trace(crate::verif::TR_STOP, 2, 0);
                                     log::debug!(
                                         "{}: Reached target state count. Shutting down... gen={}",
                                         t,
@@ -219,6 +229,12 @@ where
                 None => return,
                 Some(pair) => pair,
             };
+            #[cfg(getong_stateright_verif)]
+            crate::verif::trace(
+                crate::verif::TR_TAKE,
+                fingerprints.last().map(|f| f.get()).unwrap_or(0),
+                max_depth.get() as u64,
+            );
 
             if max_depth.get() > current_max_depth {
                 let _ = global_max_depth.compare_exchange(
@@ -247,6 +263,8 @@ where
             let mut is_awaiting_discoveries = false;
             for (i, property) in properties.iter().enumerate() {
                 if discoveries.contains_key(property.name) {
+                    #[cfg(getong_stateright_verif)]
+                    crate::verif::trace(crate::verif::TR_PROP, i as u64, 0);
                     // Stop tracking: the condition is no longer evaluated along this path, so
                     // a later terminal state must not replace the discovery.
                     ebits.remove(i);
@@ -260,8 +278,14 @@ where
                     } => {
                         if !always(model, &state) {
                             // Races other threads, but that's fine.
+                            #[cfg(getong_stateright_verif)]
+                            let _g = crate::verif::trace_guard();
+                            #[cfg(getong_stateright_verif)]
+                            crate::verif::trace(crate::verif::TR_PROP, i as u64, 1);
                             discoveries.insert(property.name, fingerprints.clone());
                         } else {
+                            #[cfg(getong_stateright_verif)]
+                            crate::verif::trace(crate::verif::TR_PROP, i as u64, 2);
                             is_awaiting_discoveries = true;
                         }
                     }
@@ -272,8 +296,14 @@ where
                     } => {
                         if sometimes(model, &state) {
                             // Races other threads, but that's fine.
+                            #[cfg(getong_stateright_verif)]
+                            let _g = crate::verif::trace_guard();
+                            #[cfg(getong_stateright_verif)]
+                            crate::verif::trace(crate::verif::TR_PROP, i as u64, 1);
                             discoveries.insert(property.name, fingerprints.clone());
                         } else {
+                            #[cfg(getong_stateright_verif)]
+                            crate::verif::trace(crate::verif::TR_PROP, i as u64, 2);
                             is_awaiting_discoveries = true;
                         }
                     }
@@ -287,6 +317,8 @@ where
                         // states, so if we are here it means we are still awaiting a corresponding
                         // discovery regardless of whether the eventually property is now satisfied
                         // (i.e. it might be falsifiable via a different path).
+                        #[cfg(getong_stateright_verif)]
+                        crate::verif::trace(crate::verif::TR_PROP, i as u64, 2);
                         is_awaiting_discoveries = true;
                         if eventually(model, &state) {
                             ebits.remove(i);
@@ -323,12 +355,18 @@ where
                 // property held on the path leading to the first visit as meaning
                 // that it holds in the path leading to the second visit -- another
                 // possible false-negative.
+                #[cfg(getong_stateright_verif)]
+                let _g = crate::verif::trace_guard();
                 let next_fingerprint = if let Some(representative) = symmetry {
                     let representative_fingerprint = fingerprint(&representative(&next_state));
                     if !generated.insert(representative_fingerprint) {
+                        #[cfg(getong_stateright_verif)]
+                        crate::verif::trace(crate::verif::TR_EXPAND, representative_fingerprint.get(), 0);
                         is_terminal = false;
                         continue;
                     }
+                    #[cfg(getong_stateright_verif)]
+                    crate::verif::trace(crate::verif::TR_EXPAND, representative_fingerprint.get(), 1);
                     // IMPORTANT: continue the path with the pre-canonicalized state/fingerprint to
                     // avoid jumping to another part of the state space for which there may not be
                     // a path extension from the previously collected path.
@@ -336,6 +374,8 @@ where
                 } else {
                     let next_fingerprint = fingerprint(&next_state);
                     if !generated.insert(next_fingerprint) {
+                        #[cfg(getong_stateright_verif)]
+                        crate::verif::trace(crate::verif::TR_EXPAND, next_fingerprint.get(), 0);
                         // FIXME: arriving at an already-known state may be a loop (in which case it
                         // could, in a fancier implementation, be considered a terminal state for
                         // purposes of eventually-property checking) but it might also be a join in
@@ -347,6 +387,8 @@ where
                         is_terminal = false;
                         continue;
                     }
+                    #[cfg(getong_stateright_verif)]
+                    crate::verif::trace(crate::verif::TR_EXPAND, next_fingerprint.get(), 1);
                     next_fingerprint
                 };
 
@@ -368,6 +410,10 @@ where
                 for (i, property) in properties.iter().enumerate() {
                     if ebits.contains(i) {
                         // Races other threads, but that's fine.
+                        #[cfg(getong_stateright_verif)]
+                        let _g = crate::verif::trace_guard();
+                        #[cfg(getong_stateright_verif)]
+                        crate::verif::trace(crate::verif::TR_RECORD, i as u64, 0);
                         discoveries.insert(property.name, fingerprints.clone());
                     }
                 }
